@@ -67,6 +67,24 @@ impl SassError {
     }
 }
 
+#[cfg(feature = "verif-hooks")]
+impl SassError {
+    /// Span of a raw error, by reference (no drop glue, no formatting)
+    pub fn verif_raw_span(&self) -> Option<Span> {
+        match &self.kind {
+            SassErrorKind::Raw(_, span) => Some(*span),
+            _ => None,
+        }
+    }
+
+    pub fn verif_raw_message(&self) -> Option<&str> {
+        match &self.kind {
+            SassErrorKind::Raw(msg, _) => Some(msg),
+            _ => None,
+        }
+    }
+}
+
 #[non_exhaustive]
 #[derive(Debug, Clone)]
 pub enum PublicSassErrorKind {
